@@ -2,6 +2,7 @@
 import TF.Drv.Proto
 import TF.Model.Poly
 import TF.Model.PolyMul
+import TF.Model.PolyNtt
 import TF.Gen.Consts
 /-!
 driver handler for the family `poly` (C07): multiplication strategies of `Polynomial<FF>`.
@@ -9,14 +10,18 @@ driver handler for the family `poly` (C07): multiplication strategies of `Polyno
 `poly <op> <field> <args…>`; field tag `b` (coefficients = canonical values), `x` (triples `(c0;c1;c2)`),
 `bx` / `xb` for mixed operands (left operand over the first field).  A polynomial is its raw coefficient list,
 stored leading zeros included.  Replies carry the *normalised* coefficients of the result (`coefficients()`).
+The NTT-based strategies run on the model of the Rust NTT loops (`TB`/`TX` below); `TF/Props/C07.lean`
+(`fast_multiply_bfield_spec`, …) proves exactly these terms correct.
 -/
 namespace TF.Drv.Poly
 open TF.Proto TF.Gen TF.Model.Poly TF.Spec
 
 def FB := TF.bfieldOps
 def FX := TF.xfieldOps
-def TB : Transform Nat := specTransform FB
-def TX : Transform X3 := specTransform FX
+/-- the transforms: the executable model of the Rust in-place NTT (`TF/Model/Ntt.lean`, property C06) wrapped as a
+    `Transform` (`TF/Model/PolyNtt.lean`), for every size — not the spec-level `specTransform` -/
+def TB : Transform Nat := bNtt
+def TX : Transform X3 := xNtt
 
 def thr : Int := (FAST_MULTIPLY_CUTOFF_THRESHOLD : Int)
 def sqc : Nat := SQUARE_CUTOFF
